@@ -1782,6 +1782,33 @@ class _Walk:
                 vals = [_fr(nd["bias"]) + sum(ins)]
         return pos, self.scaled(vals, scale)
 
+    def start_times(self, n, depth=0):
+        """possible info times of the output of node n (= what a delay adapter downstream clamps to)"""
+        nd = self.nodes[n]
+        t0 = self.case["t0"]
+        if nd["kind"] == "out":
+            return {t0 + self.case["prods"][nd["p"]].get("off", 0)}
+        if nd["kind"] == "cb":
+            return {t0}
+        if nd["kind"] == "ws" and depth < 4:
+            # the merger hands on the info of one of its value inputs
+            out = set()
+            for e in self.pull_edges[nd["w"]][0::2]:
+                out |= self.start_times(e["src"], depth + 1)
+            return out
+        return set()
+
+    def check_inits(self):
+        """a delay adapter clamps to the starting time of its SOURCE (max(t - d, init) with init = time of the
+        info delivered by the source), not to anything on the requesting side"""
+        for ed in self.edges:
+            exp = self.start_times(ed["src"])
+            for a in ed["ads"]:
+                init = self.inits.get(str(a["id"]))
+                if a["kind"] in ("delay", "dtp") and init is not None and exp and init not in exp:
+                    self.bad(f"delay adapter {a['id']} on edge {ed['key']} clamps requests to {init}, "
+                             f"its source node {ed['src']} starts at {sorted(exp)}")
+
     # log-free expectation from the publications (used to explain a skipped pull)
     def expect_edge(self, ed, t):
         scale = Fraction(1)
@@ -1846,6 +1873,7 @@ class _Walk:
             if op[0] == "phase":
                 self.run_phase = self.case["mode"] == "run"
                 self.after_connect = True
+                self.check_inits()
             elif op[0] == "pub":
                 n = op[1]
                 nd = self.nodes[n]
